@@ -2,6 +2,8 @@ SPECIFICATION Spec
 CONSTANTS
   Docs0 <- Docs0Def
   MaxOps = 3
+  PrevModes = {"fresh", "copy", "nocopy"}
+  HowModes = {"explicit", "default"}
   EditOps <- EditOpsDef
   NumCanon <- NumCanonDef
 PROPERTY Independence
